@@ -202,13 +202,15 @@ def repl_domain(P, category, column, M):
 
 @spec
 def seen_before(D, k, i, r):
-    """the value of item i in row r of category k (block 0) already occurs in an earlier row"""
-    return exists(lambda w: 0 <= w and w < r and cell(D, 0, k, w, i) == cell(D, 0, k, r, i))
+    """the value of item i in row r of category k (block 0) already occurs in an earlier row: the first row holding it (firstpos,
+    see firstpos_def) comes before r"""
+    return firstpos(D, k, i, cell(D, 0, k, r, i)) < r
 
 
 @spec
 def first_seen(P, category, column, values, M):
-    """a value first seen in row r (k different values seen before) is mapped to values[k]; the mapping has one key per different value"""
+    """a value first seen in row r (ndist = number of different values seen before) is mapped to values[ndist]; the mapping has one key
+    per different value"""
     return forall(lambda k, i: implies(cat_at(P, k, category) and item_at(P, k, i, column),
                                        len(M) == ndist(P, k, i, nrows(P, 0, k))
                                        and forall(lambda r: implies(0 <= r and r < nrows(P, 0, k) and not seen_before(P, k, i, r),
@@ -243,7 +245,7 @@ def ndist_def(D):
 
 @spec
 def firstpos_def(D):
-    """least-number principle: if some row r holds x then firstpos(x) is a row <= r that holds x"""
+    """firstpos(x) is the least row holding x (least-number principle): it holds x and is <= every row r that holds x"""
     return forall(lambda k, i, r: implies(r >= 0, 0 <= firstpos(D, k, i, cell(D, 0, k, r, i)) and firstpos(D, k, i, cell(D, 0, k, r, i)) <= r
                                           and cell(D, 0, k, firstpos(D, k, i, cell(D, 0, k, r, i)), i) == cell(D, 0, k, r, i)),
                   pats=["firstpos(D, k, i, cell(D, 0, k, r, i))"])
@@ -317,7 +319,8 @@ def replaced(C, n, ic, M):
 @spec
 def column_is(C, P, kc, ic):
     """bridge heap -> document: the old cell of item ic in row q of category object C is cell(P, 0, kc, q, ic)"""
-    return forall(lambda q: implies(0 <= q and q < len(C.rows.rws0), C.rows.rws0[q].cells0[ic] == cell(P, 0, kc, q, ic)))
+    return forall(lambda q: implies(0 <= q and q < len(C.rows.rws0), C.rows.rws0[q].cells0[ic] == cell(P, 0, kc, q, ic)),
+                  pats=["C.rows.rws0[q].cells0[ic]"])
 
 
 @spec
@@ -878,9 +881,8 @@ class replace_value:
                 "assert 0 <= n + 1 and n + 1 <= nrows(P, 0, kc)",
                 "assert ndist(P, kc, ic, n + 1) <= len(values)",
                 "assert len(mapping) < len(values)"]},
-        {"when": "before", "at": "row[i] = mapping[row[i]]", "loop": 0, "label": "counted",
-         "do": ["assert len(mapping) == ndist(P, kc, ic, n + 1)",
-                "assert row[i] in mapping"]},
+        {"when": "before", "at": "transformed.append(row)", "loop": 0, "label": "counted",
+         "do": ["assert len(mapping) == ndist(P, kc, ic, n + 1)"]},
     ]
 
 
